@@ -514,10 +514,15 @@ func (m *Machine) script(extra *Term) string {
 func (m *Machine) crossCheck(neg *Term) string {
 	s := m.solver2
 	s.send("(reset)")
-	s.init()
+	if s.name != "cvc5" {
+		s.send(fmt.Sprintf("(set-option :timeout %d)", solverTimeoutMs))
+	} else {
+		s.send("(set-logic ALL)")
+	}
 	s.send(m.script(neg))
 	r := s.checkSat()
 	if strings.HasPrefix(r, "unknown") {
+		dbg("cross-check %s: %s\n%s", s.name, r, m.script(neg))
 		return "unknown"
 	}
 	return r
